@@ -39,6 +39,7 @@ def write_evidence(prop, tier, seed, res, level):
         "inconclusive_or_error_instances": [
             {k: p.get(k) for k in ("module", "shape", "status", "error")} for p in res["problems"][:10]],
         "crosscheck": res.get("crosscheck"),
+        "translator_validation": res.get("translator_validation"),
         "exhaustive": not res["problems"] and not res["missing"],
         # generic keys (measured): evaluations = completed symbolic paths; each path is a distinct
         # decision vector, non-trivial when it contains at least one forked decision or choice.
@@ -96,7 +97,18 @@ def main(argv=None):
     opts = {}
     if tier == "thorough":
         opts["record_queries"] = 12
+    # translator validation first (facade / proxies / SeedSequence model against real numpy on the repo's own test inputs)
+    import multiprocessing as mp
+    with mp.get_context("fork").Pool(1) as pool:
+        try:
+            from . import selftest
+            tv = pool.apply(selftest.run_all)
+        except BaseException as e:  # noqa: BLE001
+            print(f"[{prop}] translator validation FAILED: {e!r}")
+            print(f"[{prop}] INCONCLUSIVE / harness error (exit 3): not a pass, not an alarm")
+            return runner.EXIT_INCONCLUSIVE
     res = runner.run_property(prop, harnesses, tier, seed, jobs=a.jobs, opts=opts)
+    res["translator_validation"] = tv
     if tier == "thorough" and res["recorded"]:
         from .crosscheck import crosscheck
         res["crosscheck"] = crosscheck(res["recorded"], seed)
